@@ -589,6 +589,9 @@ class ContractMixin:
                 cls = self.classes.canon(e.args[1].value)
                 outs.append((s2, SV(TRef(cls), v.t)))
             return outs
+        if name == 'ext':
+            # ext('socket.AF_INET'): the constant of an external module declared with api.ext_value
+            return [(st, self.need_value(Entity('ext', e.args[0].value)))]
         if name == 'same_class':
             outs = []
             for s2, (a, b) in self.eval_many(st, e.args):
